@@ -2,6 +2,7 @@ package props
 
 import (
 	"fmt"
+	"regexp"
 	"strings"
 
 	sasl "github.com/emersion/go-sasl"
@@ -137,6 +138,23 @@ func c20Session(c *Ctx, logger *rig.CapLogger, pass, kind string, capn, useSasl,
 	return logger.Records(), passOnWire, true
 }
 
+// c20RecHas reports whether the record's text, format or any argument contains s.
+func c20RecHas(rec *rig.LogRecord, s string) bool {
+	// the harness's own endpoint id (part of the proxy URL the library logs) differs from session to session
+	norm := func(x string) string { return c20EpRe.ReplaceAllString(x, "verifmem://ep") }
+	if strings.Contains(norm(rec.Text), s) || strings.Contains(rec.Format, s) {
+		return true
+	}
+	for _, a := range rec.Args {
+		if strings.Contains(norm(fmt.Sprintf("%v", a)), s) {
+			return true
+		}
+	}
+	return false
+}
+
+var c20EpRe = regexp.MustCompile(`verifmem(ctx)?://ep[0-9]+`)
+
 func runC20(c *Ctx) {
 	part, parts := c.ArgInt("part", 0), c.ArgInt("parts", 1)
 	total := c.Pick(4000, 100000)
@@ -168,7 +186,7 @@ func runC20(c *Ctx) {
 				return
 			}
 			for _, rec := range ctl {
-				if strings.Contains(rec.Text, pass) {
+				if c20RecHas(&rec, pass) {
 					trivial = true
 				}
 			}
@@ -185,13 +203,7 @@ func runC20(c *Ctx) {
 		}
 		masked := false
 		for _, rec := range recs {
-			leak := strings.Contains(rec.Text, pass) || strings.Contains(rec.Format, pass)
-			for _, a := range rec.Args {
-				if strings.Contains(fmt.Sprintf("%v", a), pass) {
-					leak = true
-				}
-			}
-			if leak {
+			if c20RecHas(&rec, pass) {
 				c.R.Violate(rig.Violation{
 					Sig:     "c20|password-in-log|" + rec.Level,
 					Detail:  fmt.Sprintf("a %s record contains the connection password (class %s, session %s): format %q", rec.Level, pclass, kind, rec.Format),
